@@ -343,9 +343,6 @@ def r_C28b_C33b_C30bc(root):
 def r_C03de_C11a_C17bc(root):
     out = []; inst = 0
     t = load(root, M); ti = find(t, "textx_isinstance"); inst += 1
-    src = ast.unparse(ti)
-    if not ("obj_cls.__name__ == 'OBJECT'" in src and "isinstance(obj, obj_cls)" in src and "_tx_fqn" in src and "_tx_inh_by" in src and any(callee_name(c) == "textx_isinstance" for c in calls(ti))):
-        out.append(Finding("C03", "C03.d", M, "textx_isinstance", "decision list", "OBJECT / instance / same fqn / inherited-by recursion: a case is missing"))
     lang = load(root, "textx/lang.py"); mm = load(root, "textx/metamodel.py")
     ch = {}
     for n in lang.body:
